@@ -190,6 +190,7 @@ struct Result {
     void sample(const std::string& raw_json) { std::lock_guard<std::mutex> l(m); if (samples.size() < sample_cap) samples.push_back(raw_json); }
     // key: stable identifier of the violation kind (matched against known_findings.json by the driver);
     // detail: human readable; scenario_json: raw JSON object with everything needed to replay
+    bool stacks_for_hangs = true;   // a violation whose key contains ".hang." gets gdb back-traces of all threads appended
     void violation(const std::string& key, const std::string& detail, const std::string& scenario_json = "{}");
     void write();            // writes the JSON result file (idempotent, last call wins)
     [[noreturn]] void finish_and_exit(int code = 0);  // write + _exit (safe when threads are wedged)
@@ -273,6 +274,7 @@ void watchdog_stop();
 void suspend_gate();                   // background helpers (keeper) block here, without timeouts, while the watchdog is deciding
 
 // ------------------------------------------------------------------------------------------------ misc
+std::string stacks_dump(int frames = 12, size_t max_bytes = 9000);   // gdb -batch back-traces of all threads of this process (witness for hang verdicts)
 void set_crash_context(const std::string& what);   // printed on a fatal signal so that the driver can key the crash by scenario kind
 void pin_process_to_cpus(int ncpus);   // restrict the whole process (call before threads are created)
 int gettid_();
@@ -424,7 +426,9 @@ void Result::violation(const std::string& key, const std::string& detail, const 
     std::lock_guard<std::mutex> l(m);
     violations_total++;
     if (violations.size() >= violation_cap) return;
-    Json j; j.obj(); j.kv("key", key); j.kv("detail", detail); j.key("scenario").raw(scenario_json.empty() ? "{}" : scenario_json); j.end_obj();
+    std::string det = detail;
+    if (key.find(".hang.") != std::string::npos && stacks_for_hangs) det += "\nstacks:\n" + stacks_dump();
+    Json j; j.obj(); j.kv("key", key); j.kv("detail", det); j.key("scenario").raw(scenario_json.empty() ? "{}" : scenario_json); j.end_obj();
     violations.push_back(j.s);
     fprintf(stderr, "[vrt] violation key=%s %s\n", key.c_str(), detail.c_str());
 }
@@ -554,6 +558,41 @@ void watchdog_start(const WatchdogCfg& cfg, HangFn on_hang) {
             if (t - last_t > cfg.hard_limit_s) { hi.threads = describe_threads(ts); on_hang(hi); return; }
         }
     });
+}
+
+std::string stacks_dump(int frames, size_t max_bytes) {
+    if (VRT_TSAN) return "(no gdb stacks in the tsan variant)";
+    char cmd[256];
+    snprintf(cmd, sizeof cmd, "timeout 40 gdb -p %d -batch -nx -ex 'set print frame-arguments none' -ex 'thread apply all bt %d' 2>/dev/null", (int)getpid(), frames);
+    FILE* f = popen(cmd, "r"); if (!f) return "(gdb not available)";
+    // one block of frames per thread; threads with identical back-traces are grouped, rare traces first
+    std::vector<std::pair<std::string, std::string>> blocks;   // (thread header, frames)
+    std::string line; char buf[1024];
+    while (fgets(buf, sizeof buf, f)) {
+        line = buf;
+        if (line.compare(0, 7, "Thread ") == 0) { size_t l = line.find("(LWP "); std::string h = l == std::string::npos ? line : line.substr(l + 1, line.find(')', l) - l - 1); blocks.push_back({ h, "" }); }
+        else if (line[0] == '#' && !blocks.empty()) {
+            size_t in = line.find(" in "); if (in != std::string::npos && in < 24) line = line.substr(0, line.find(' ')) + " " + line.substr(in + 4);
+            if (line.size() > 200) line = line.substr(0, 200) + "\n";
+            blocks.back().second += "  " + line;
+        }
+    }
+    pclose(f);
+    std::map<std::string, std::vector<std::string>> groups;
+    for (auto& b2 : blocks) groups[b2.second].push_back(b2.first);
+    std::vector<std::pair<size_t, std::string>> order;
+    for (auto& g : groups) order.push_back({ g.second.size(), g.first });
+    std::sort(order.begin(), order.end());
+    std::string out;
+    for (auto& o : order) {
+        auto& ths = groups[o.second];
+        out += std::to_string(ths.size()) + " thread(s) [";
+        for (size_t i = 0; i < ths.size() && i < 6; i++) out += (i ? ", " : "") + ths[i];
+        if (ths.size() > 6) out += ", ...";
+        out += "]:\n" + o.second;
+        if (out.size() > max_bytes) { out = out.substr(0, max_bytes) + "..."; break; }
+    }
+    return out.empty() ? "(gdb produced no back-trace)" : out;
 }
 
 void pin_process_to_cpus(int ncpus) {
